@@ -259,7 +259,7 @@ func CheckConsume(c ConsumeCase) *kit.Violation {
 	if !bytes.Equal(got, want) {
 		return kit.Failf("%s consumer into %s (prepopulated=%v): stored %d bytes %q, the stream delivered %d bytes %q (chunks %v, eof-with-data %v)", c.Codec, c.Dest, c.Prepop, len(got), clipb(got), len(want), clipb(want), c.Stream.Chunks, c.Stream.EOFWithData)
 	}
-	if rd.pos != len(c.Stream.Data) {
+	if usesStd := c.Stream.Std != "" && !c.Stream.fails() && !c.Stream.Closable; !usesStd && rd.pos != len(c.Stream.Data) {
 		return kit.Failf("%s consumer into %s: only %d of %d stream bytes were read", c.Codec, c.Dest, rd.pos, len(c.Stream.Data))
 	}
 	// never alias: what was stored must survive later work of the codec (a second and third Consume of other
@@ -656,6 +656,11 @@ func GenConsume(t *rapid.T) ConsumeCase {
 	}
 	if c.Dest == dWriter && rapid.IntRange(0, 2).Draw(t, "sinkfail") == 0 {
 		c.SinkErr = rapid.IntRange(0, len(data)).Draw(t, "sinkfailat")
+	}
+	// drawn last (the cases of earlier harness versions stay what they were at a given seed)
+	if !c.Stream.fails() && !c.Stream.Closable && rapid.IntRange(0, 3).Draw(t, "std-reader") == 0 {
+		c.Stream.Std = rapid.SampledFrom([]string{"bytes.Reader", "strings.Reader", "io.SectionReader"}).Draw(t, "std-kind")
+		c.Stream.Skip = rapid.SampledFrom([]int{0, 1, 4, 600}).Draw(t, "std-skip")
 	}
 	return c
 }
